@@ -4,6 +4,20 @@ NOTES = ("Technique family: static analysis only. Every check inspects /repo's c
          "the behavioural remainder is stated in level_note. fix: commits and recorded findings are listed in known_findings.json.")
 NOT_APPLICABLE = {}
 CLAIMS = {
+ "C01": {
+  "text": "Decides the finite tables and coverage clauses of the class reader on every run: class_constants (205 opcode values, 17 pool tags, 9 handle "
+          "kinds, atype, attribute names, magic) against the JVMS; for each of the 256 opcode bytes and 256 wide sub-opcodes the second-pass arm "
+          "(Instruction variant, implied local index, operand bytes consumed, operand kind: pool-entry kind / label / local) and its agreement with "
+          "the label-creating first pass; switch shapes; PoolRead::read tag -> layout -> variant -> slot count, as_X destructuring, method-handle kind "
+          "table, loadable/constant-value kind sets; no table filled by the reader is dropped (write-only accumulator) and every visitor method has a "
+          "call site; attribute dispatch per location; the nine access-flag conversion tables (field <-> JVMS mask); verification-type, frame-type, "
+          "element-value, target-type, type-path tag tables and 4-byte alignment.",
+  "note": "Not decided: that labels denote the right instruction for every byte stream, frame attachment, modified-UTF-8 decoding, bootstrap "
+          "argument values, i.e. read_class(bytes) == ground truth as a value-level law. 2 recorded findings (parameter annotations skipped). "
+          "Trusted: rustc HIR/typeck/const-eval; spec/jvms_tables.json transcribed from JVMS ch. 4/6.",
+  "technique": "static analysis: decision-table extraction (pattern-matrix evaluation over const-evaluated patterns), abstract byte-consumption "
+               "counting per arm, sibling agreement (pass 1 vs pass 2), write-only-accumulator and call-coverage rules",
+ },
  "C19": {
   "text": "Decides, on every run, the finite tables and structural necessary conditions behind Maven resolution: all 25 cells of the scope "
           "table evaluated through the call site's argument order (pattern-matrix evaluation, not execution), the optional cut and compile default, "
